@@ -104,8 +104,8 @@ CHECKS["C15"] = dict(
 CHECKS["C16"] = dict(
    category="translation_validation",
    text="Proven certificates (QSP/Properties/C16.lean): validTrig_sound - acceptance implies |p(x) - scale*cos(tau x)| <= eps (resp. sin) for EVERY x in [-1,1], from the exact Taylor polynomial (remainder 2|tau|^n/n! via Complex.exp_bound') converted exactly to the Chebyshev basis (chebAt_monoToCheb); validInv_sound - acceptance implies |p(x)/scale - 1/x| <= 3 eps for every 1/kappa <= |x| <= 1, from the exact identity x g(x) - 1 + (1-x^2)^b = E(x). Each run applies them to ~60 cosine / sine / 1/x outputs in both bases, and compares the 9 erf-family generators in Chebyshev mode with an independently recomputed least-squares fit (discrete Chebyshev transform of independently evaluated targets).",
-   note='''Trusted: Lean kernel + Mathlib, standard axioms, model driver, harness. ''' + "PARTIAL: the erf-family clause (positive multiple of the least-squares fit of the documented target) is decided by an independent floating-point recomputation (scipy.special.erf, DCT formula), i.e. explored with an independent oracle, not proved; the a-priori Jacobi-Anger / Childs-Kothari-Somma bounds for all (tau, eps) at once need Bessel functions (absent from Mathlib) - accuracy is certified per instance over the continuum instead.",
-   technique="Lean 4 proven accuracy certificates over the continuum (cos/sin/1/x) + independent recomputation (erf family)",
+   note='''Trusted: Lean kernel + Mathlib, standard axioms, model driver, harness. ''' + "PARTIAL: for the erf-family clause the closed formula the check recomputes IS the least-squares Chebyshev fit on the first-kind nodes - proved (QSP/Properties/C16b.lean: discrete orthogonality sum_cos_nodes / gram, normal equations, resid_optimal, resid_unique: the DCT coefficients are the unique minimiser for every sample vector and every degree n < N; dctCoef_even / dctCoef_odd: the coefficients of the wrong parity vanish for even / odd samples; fitVal_eq_chebyshev ties cos(k theta) to Mathlib's Chebyshev T_k) - but the formula is EVALUATED in binary64 on independently computed target values (scipy.special.erf), i.e. the comparison itself is an independent floating-point recomputation, not an exact certificate; the a-priori Jacobi-Anger / Childs-Kothari-Somma bounds for all (tau, eps) at once need Bessel functions (absent from Mathlib) - accuracy is certified per instance over the continuum instead.",
+   technique="Lean 4 proven accuracy certificates over the continuum (cos/sin/1/x) + proven least-squares = DCT formula evaluated independently (erf family)",
    design="7/C16")
 CHECKS["C19"] = dict(
    category="exploration",
